@@ -22,4 +22,4 @@ Deliver, for change N in (1, 2), the directory /tmp/wt/{pid}-out/changeN/ contai
   - patch.diff : output of `git diff` for the source change ONLY (no demo files), applying cleanly to HEAD with `git apply`;
   - demo/ : the demonstration files (test source, script, …) plus demo/README.md saying how to run it, what it prints with and without the change;
   - meta.json : {{"property": "{pid}", "summary": "<one sentence: what the change does>", "needs_to_manifest": "<what specific input / schedule / crash point / history exposes it>", "nextest_summary_with_change": "<the summary line>", "demo_without_change": "<observed>", "demo_with_change": "<observed>"}}
-Keep the two changes separate: each patch.diff must apply to a clean HEAD on its own. Leave the worktree clean (git stash / git checkout -- .) when you finish; do not commit. Your final message: a short description of both changes and where the deliverables are.""")
+Keep the two changes separate: each patch.diff must apply to a clean HEAD on its own. Leave the worktree clean (git checkout -- .) when you finish; do not commit. Never use `git stash` (worktrees share one stash): save work with `git diff > file` and restore with `git apply`. Your final message: a short description of both changes and where the deliverables are.""")
